@@ -1,9 +1,9 @@
 package props
 
 import (
-	"sort"
 	"fmt"
 	"go/types"
+	"sort"
 	"strings"
 
 	"golang.org/x/tools/go/ssa"
@@ -385,43 +385,7 @@ func C17(p *ir.Program, r *report.R) {
 	}
 
 	// ---- a node never acts in a round it has not entered (and rotated for) ---------------------------------
-	// addVote may learn of a later round through +2/3 votes; before it prevotes/precommits/commits in
-	// vote.Round it enters that round, which is where cs.Validators is rotated by (round - cs.Round).
-	// Skipping the entry leaves the proposer schedule of this node behind everyone else's.
-	{
-		av := p.Func("consensus", "ConsensusState.addVote")
-		nS := 0
-		isEnter := func(in ssa.Instruction) bool {
-			call, ok := in.(*ssa.Call)
-			return ok && ir.CalleeName(call) == "consensus.ConsensusState.enterNewRound" && Arg(call, 2) == "vote.Round"
-		}
-		ir.Instrs(av, func(in ssa.Instruction) {
-			call, ok := in.(*ssa.Call)
-			if !ok {
-				return
-			}
-			n := ir.CalleeName(call)
-			if !(n == "consensus.ConsensusState.enterPrevote" || n == "consensus.ConsensusState.enterPrevoteWait" || n == "consensus.ConsensusState.enterPrecommit" || n == "consensus.ConsensusState.enterPrecommitWait" || n == "consensus.ConsensusState.enterCommit") {
-				return
-			}
-			if Arg(call, 2) != "vote.Round" {
-				return
-			}
-			nS++
-			found, _, tr := ir.FindPath(ir.PathQuery{From: ir.Entry(av), Target: func(x ssa.Instruction) bool { return x == in }, Avoid: isEnter,
-				AvoidEdge: func(atoms []string) bool {
-					for _, a := range atoms {
-						if a == "eq(cs.RoundState.Round,vote.Round)" || a == "eq(vote.Round,cs.RoundState.Round)" {
-							return true
-						}
-					}
-					return false
-				}})
-			r.Check("K2", csT+"addVote/round-entered-before-step/"+strings.TrimPrefix(n, "consensus.ConsensusState."), p.InstrPos(in), !found,
-				fmt.Sprintf("a step of vote.Round is taken only after enterNewRound(height, vote.Round) (or when vote.Round is the current round); path without it: %v", tr))
-		})
-		r.Check("K2", csT+"addVote/round-entered-before-step/sites", p.Pos(av.Pos()), nS >= 4, fmt.Sprintf("%d step calls for vote.Round found in addVote", nS))
-	}
+	roundEnteredBeforeStep(c)
 
 	// ---- a copy carries the designated proposer ----------------------------------------------------
 	// GetProposer() of a copy must be the validator IncrementAccum designated, not a recomputation
@@ -498,3 +462,45 @@ func C17(p *ir.Program, r *report.R) {
 }
 
 var _ = report.Discharged
+
+// roundEnteredBeforeStep (shared by C01 and C17): addVote may learn of a later round through +2/3
+// votes; before it prevotes/precommits/commits in vote.Round it enters that round. Entering the round
+// is where the proposal of the previous round is cleared and cs.Round/cs.Validators move on: a step
+// taken without it signs a vote of the OLD round for what the new round's votes decided (C01: a
+// precommit without +2/3 prevotes in that round) and leaves the proposer schedule behind (C17).
+func roundEnteredBeforeStep(c C) {
+	p, r := c.P, c.R
+	csT := "consensus.(*ConsensusState)."
+	av := p.Func("consensus", "ConsensusState.addVote")
+	nS := 0
+	isEnter := func(in ssa.Instruction) bool {
+		call, ok := in.(*ssa.Call)
+		return ok && ir.CalleeName(call) == "consensus.ConsensusState.enterNewRound" && Arg(call, 2) == "vote.Round"
+	}
+	ir.Instrs(av, func(in ssa.Instruction) {
+		call, ok := in.(*ssa.Call)
+		if !ok {
+			return
+		}
+		n := ir.CalleeName(call)
+		if !(n == "consensus.ConsensusState.enterPrevote" || n == "consensus.ConsensusState.enterPrevoteWait" || n == "consensus.ConsensusState.enterPrecommit" || n == "consensus.ConsensusState.enterPrecommitWait" || n == "consensus.ConsensusState.enterCommit") {
+			return
+		}
+		if Arg(call, 2) != "vote.Round" {
+			return
+		}
+		nS++
+		found, _, tr := ir.FindPath(ir.PathQuery{From: ir.Entry(av), Target: func(x ssa.Instruction) bool { return x == in }, Avoid: isEnter,
+			AvoidEdge: func(atoms []string) bool {
+				for _, a := range atoms {
+					if a == "eq(cs.RoundState.Round,vote.Round)" || a == "eq(vote.Round,cs.RoundState.Round)" {
+						return true
+					}
+				}
+				return false
+			}})
+		r.Check("K2", csT+"addVote/round-entered-before-step/"+strings.TrimPrefix(n, "consensus.ConsensusState."), p.InstrPos(in), !found,
+			fmt.Sprintf("a step of vote.Round is taken only after enterNewRound(height, vote.Round) (or when vote.Round is the current round); path without it: %v", tr))
+	})
+	r.Check("K2", csT+"addVote/round-entered-before-step/sites", p.Pos(av.Pos()), nS >= 4, fmt.Sprintf("%d step calls for vote.Round found in addVote", nS))
+}
